@@ -78,7 +78,7 @@ func runC06(c *Ctx) {
 		if r.Chance(1, 2) {
 			j, val = c06TieJournal(r)
 		} else {
-			o := JGenOpts{MaxAccounts: r.Range(3, 8), MaxDays: r.Range(1, 6), Unicode: true, BaseDay: 737000 + r.Intn(1500), SpanDays: Pick(r, []int{0, 30, 300}), Prices: true, Valuation: "CHF", ChainPrices: true, CaseVariants: true}
+			o := JGenOpts{MaxAccounts: r.Range(3, 8), MaxDays: r.Range(1, 6), Unicode: true, BaseDay: 737000 + r.Intn(1500), SpanDays: Pick(r, []int{0, 30, 300}), Prices: true, Valuation: "CHF", ChainPrices: true, CaseVariants: true, Accruals: r.Chance(1, 2), ManyPricesPerDay: r.Chance(1, 3), DupPrices: r.Chance(1, 3)}
 			j, _ = GenJournal(r, o)
 			val = "CHF"
 		}
@@ -102,6 +102,10 @@ func runC06(c *Ctx) {
 			wf := BalFlags{Val: val, Interval: Pick(r, []int{0, 3, 5}), To: f.To}
 			args := append([]string{"portfolio", "weights"}, wf.Args()[1:]...)
 			add(&c06Job{Idx: i, Kind: "weights", Args: append(append(args, "--csv"), "@j.knut"), Files: files, Input: in})
+			// portfolio returns: float64 sums over per-commodity maps (found on the unchanged tree by C19's stream after accrued
+			// expenses in a priced commodity were added to its journals: `0.0%` in some runs, `-0.0%` in others; repaired by 6606650)
+			rf := BalFlags{Val: val, Interval: Pick(r, []int{2, 3, 3, 4}), To: f.To}
+			add(&c06Job{Idx: i, Kind: "returns", Args: append(append([]string{"portfolio", "returns"}, rf.Args()[1:]...), "@j.knut"), Files: files, Input: in})
 		case 7:
 			// infer with ties: several candidates seen equally often with the same tokens; training split over included files
 			var tr, tr2 strings.Builder
@@ -133,7 +137,7 @@ func runC06(c *Ctx) {
 	// journals spread over included files whose converter goroutines all meet the same not-yet-registered commodities and
 	// accounts at the same moment (goroutine scheduling decides who registers them): seeded change C06-c lost the re-check
 	// under the registry's write lock, so that the report showed a commodity twice in some runs
-	for i := 0; i < c.N(6, 40); i++ {
+	for i := 0; i < c.N(9, 60); i++ {
 		if !c.Want("shared", i) {
 			continue
 		}
@@ -151,6 +155,36 @@ func runC06(c *Ctx) {
 			fmt.Fprintf(&root, "include \"f%d.knut\"\n", f)
 		}
 		files["root.knut"] = root.String()
+		if i%3 == 2 {
+			// ONE large file whose same-day directives (opens, prices — among them one pair declared many times on one day —
+			// and assertions) are spread over its whole length: a loader that converts a file in concurrent batches delivers them
+			// in completion order (seeded change C06-d: batches of >= 1024 directives)
+			var b strings.Builder
+			n := r.Range(3000, 9000)
+			b.WriteString("2020-01-01 open Equity:A1\n\n")
+			for k := 0; k < n; k++ {
+				switch k % 5 {
+				case 0:
+					fmt.Fprintf(&b, "2020-01-01 open Assets:B%d\n\n", k)
+				case 1:
+					fmt.Fprintf(&b, "2020-01-02 price P%d %d.%02d CHF\n\n", k%7, 1+k%97, k%100)
+				case 2:
+					fmt.Fprintf(&b, "2020-01-03 \"t%d\"\nEquity:A1 Assets:B%d %d P%d\n\n", k, k-2, 1+k%9, k%7)
+				case 3:
+					fmt.Fprintf(&b, "2020-01-03 balance Assets:B%d %d P%d\n\n", k-3, 1+(k-1)%9, (k-1)%7)
+				default:
+					fmt.Fprintf(&b, "2020-01-04 \"u%d\"\nEquity:A1 Assets:B%d 1 CHF\n\n", k, k-4)
+				}
+			}
+			files = map[string]string{"root.knut": b.String()}
+			in := map[string]any{"layout": fmt.Sprintf("one file of %d directives: directive k is, by k mod 5: `2020-01-01 open Assets:B<k>`, `2020-01-02 price P<k mod 7> <1+k mod 97>.<k mod 100> CHF`, a transaction on 2020-01-03 of 1+k mod 9 P<k mod 7> to Assets:B<k-2>, the matching assertion, a 1 CHF transaction on 2020-01-04", n)}
+			kind, args := "print-big-file", []string{"print", "@root.knut"}
+			if i%2 == 0 {
+				kind, args = "balance-big-file", []string{"balance", "--color=false", "-v", "CHF", "@root.knut"}
+			}
+			add(&c06Job{Idx: 100000 + i, Kind: kind, Args: args, Files: files, Input: in, Quiet: true})
+			continue
+		}
 		in := map[string]any{"layout": fmt.Sprintf("root.knut opens Equity:A1 and Assets:A0 and includes f0..f%d; file f books `Equity:A1 Assets:A0 <f+1> K<k>` for k < %d on 2020-01-<2+f>", nf-1, nc)}
 		kind, args := "balance-shared-includes", []string{"balance", "--color=false", "@root.knut"}
 		if i%3 == 1 {
